@@ -862,6 +862,19 @@ def do_op(w, o, inj):
             strict = not animated_draw
             if animated_draw:
                 w.flags.add("animated_draw")
+            if w.animated and kind in ("str", "format") and not (kind == "format" and "A" in o["spec"]["sty"]):
+                # a direct render shows the image's current frame: the same text an independent second image object of
+                # the same source gives at that frame (whatever iterators / draws did to the first one before)
+                if kind == "format":
+                    exp = w.twin_format(w.tell, spec)
+                else:
+                    w.sync_twin()
+                    w.twin.seek(w.tell)
+                    exp = str(w.twin)
+                if res != exp:
+                    w.fail(f"{kind} of the image at frame {w.tell} differs from the same render of an independent image object "
+                           f"of the same source at that frame: {_short(res)} != {_short(exp)}", "direct_render_frame", op=kind)
+                w.flags.add("direct_render_compared")
         x = None
 
     elif kind == "iter":
